@@ -10,13 +10,13 @@ def cubes_inj(tier):
 
 
 def cubes_ops(tier):
-    seqs = ["S", "F", "U", "SX", "SI", "SM", "SXM"]
+    seqs = ["S", "F", "U", "SX", "SI", "SM", "SXM", "LS"]
     if tier == "quick":
         out = [dict(ops=o, cls=c, prop="C01", _w=len(o)) for o in seqs for c in ("local", "base")]
         out += [dict(ops="S", cls="local", prop="C01", pre=p) for p in (1, 2)]
         out += [dict(ops="SI", cls="local", prop="C01", names=n, state=True, depth=[1, 2, 2], _w=2) for n in (1, 2)]
         return out
-    seqs += ["US", "SIM", "FSX", "UXM", "SXI"]
+    seqs += ["US", "SIM", "FSX", "UXM", "SXI", "LSM", "SL", "LU"]
     out = [dict(ops=o, cls=c, prop="C01", names=n, state=st, pre=p, _w=len(o))
            for o in seqs for c in ("local", "base") for n, st, p in ((0, False, 0), (1, True, 1), (2, False, 2))]
     out += [dict(ops="SXM", cls=c, prop="C01", depth=d, names=1, _w=3) for c in ("local", "base") for d in ([0, 0, 0], [2, 2, 2], [1, 2, 2])]
@@ -42,7 +42,8 @@ SPEC = Spec(
           smoke=[{"args": {"a": "abc1", "b": "abc2"}, "cube": {}}], encodes="LocalHashFileDB.oid_to_path"),
         H("ops", "vf.harness.c01_ops", "h_ops", cubes_ops, timeout={"quick": 400, "thorough": 1500}, real=True,
           bounds={"quick": "source tree of 1..3 files at nesting depths 0/1/2 (+ an empty directory); contents from {empty, CRLF text, binary, duplicate of "
-                           "the first}; operation sequences {stage dir, stage file, upload-stage, store->store transfer, index save, migrate to sha256} "
+                           "the first}; operation sequences {stage dir, stage file, upload-stage, store->store transfer, index save, migrate to sha256, legacy md5-dos2unix "
+                           "staging sharing the hash-state cache} "
                            "of length <= 3 on both store classes; every store audited after every step",
                   "thorough": "12 sequences x 2 classes x odd names (non-ASCII, space, backslash, '.dir' suffix) / state / pre-existing objects"},
           smoke=[{"args": SMOKE, "cube": {"ops": o, "cls": "local", "names": 1, "prop": "C01", "state": True}} for o in ("SXM", "U", "SI", "F")],
